@@ -77,6 +77,11 @@ def mask_families():
            ("hrr13s", scen.ALL["hrr13s"]), ("nohrr13s", v13),
            ("13-cid-srtp", dict(scen.ALL["hrr13s"], cidC=4, cidS=8, srtpC=[1, 2], srtpS=[2])),
            ("13-cid0", dict(v13, cidC=0, cidS=6)),
+           # application protocols under DTLS 1.3 (equal lists, overlapping lists, with SRTP and CIDs alongside)
+           ("13-alpn", dict(v13, alpnC=["coap"], alpnS=["coap"])),
+           ("13-alpn-overlap", dict(scen.ALL["hrr13s"], alpnC=["a", "b"], alpnS=["b", "c"])),
+           ("13-alpn-srtp-cid", dict(v13, alpnC=["x", "y"], alpnS=["y"], srtpC=[1], srtpS=[1, 2], cidC=4, cidS=4)),
+           ("dual-alpn", dict(v13, cver="dual", sver="dual", alpnC=["q"], alpnS=["q"])),
            ("13-suite-chacha", dict(v13, suite="TLS_CHACHA20_POLY1305_SHA256")),
            ("13-suite-aes256", dict(scen.ALL["hrr13s"], suite="TLS_AES_256_GCM_SHA384")),
            ("13-clientauth", dict(v13, clientAuth=4, clientCert=True, verify=True)),
